@@ -13,6 +13,9 @@ use std::rc::Rc;
 
 // ------------------------------------------------------------------ harness types
 
+/// the value a motor armed with re-entrancy mode 5 sets on itself from inside impl_set
+const NESTED_FALLBACK: f32 = 0.015625;
+
 /// A user-defined settable that relies on the trait's default methods only.
 struct FaultyMotor {
     data: SettableData<f32, E>,
@@ -42,6 +45,13 @@ impl Settable<f32, E> for FaultyMotor {
             4 => {
                 let _ = self.primary.borrow_mut().update();
                 let _ = self.alternative.borrow_mut().update();
+            }
+            // 5: a clamping motor: it first applies a fall-back request of its own through the public
+            // `set` (which succeeds), then treats the outer request as usual (accept or reject)
+            5 => {
+                let held = self.reject.replace(None);
+                let _ = self.set(NESTED_FALLBACK);
+                self.reject.set(held);
             }
             _ => {}
         }
@@ -295,6 +305,12 @@ pub fn execute(plan: &Plan, ctx: &mut Ctx) {
                             if motor_reenter.get() != 0 {
                                 ctx.count("reach.reentrant_follow_change");
                             }
+                            if motor_reenter.get() == 5 {
+                                // the nested set succeeds whatever happens to the outer one
+                                motor_expect.push(NESTED_FALLBACK.to_bits());
+                                model[0].last = Some(NESTED_FALLBACK.to_bits());
+                                ctx.count("reach.nested_set_inside_impl_set");
+                            }
                             let r = norm_unit(&motor.set(f32::from_bits(v)));
                             let w = match motor_rej.get() {
                                 Some(k) => Some(er_of(k)),
@@ -364,6 +380,11 @@ pub fn execute(plan: &Plan, ctx: &mut Ctx) {
                                     }
                                     if armed != 0 {
                                         ctx.count("reach.reentrant_follow_change");
+                                    }
+                                    if armed == 5 {
+                                        motor_expect.push(NESTED_FALLBACK.to_bits());
+                                        model[0].last = Some(NESTED_FALLBACK.to_bits());
+                                        ctx.count("reach.nested_set_inside_impl_set");
                                     }
                                     if let Some(r) = motor_rej.get() {
                                         want = Some(er_of(r));
@@ -704,7 +725,7 @@ pub fn generate(prop: &str, tier: Tier, rng: &mut Rng, seed: u64, run: u64) -> P
             5 => {
                 if rng.chance(0.2) {
                     // the motor changes what it follows from inside its next impl_set
-                    plan.push("MRE", &[rng.range(1, 4)]);
+                    plan.push("MRE", &[rng.range(1, 5)]);
                 } else {
                     plan.push("REJ", &[if rng.chance(0.5 + fault) { rng.range(1, 3) } else { 0 }]);
                 }
